@@ -1,6 +1,7 @@
 package main
 
 import (
+	"bufio"
 	"bytes"
 	"crypto/sha256"
 	"encoding/hex"
@@ -20,23 +21,27 @@ import (
 // edited copy of a 19 MiB file costs nothing to build. fill=false returns at
 // segment borders (short reads at the edit position), fill=true fills the
 // caller's buffer across them (like a file would).
+// withEOF returns the last piece together with io.EOF (as io.Reader allows);
+// max > 0 bounds the size of every piece.
 type segReader struct {
-	segs [][]byte
-	i    int
-	off  int
-	fill bool
+	segs    [][]byte
+	i       int
+	off     int
+	fill    bool
+	withEOF bool
+	max     int
 }
 
 func (s *segReader) Read(p []byte) (int, error) {
 	if len(p) == 0 {
 		return 0, nil
 	}
+	if s.max > 0 && len(p) > s.max {
+		p = p[:s.max]
+	}
 	n := 0
 	for n < len(p) {
-		for s.i < len(s.segs) && s.off >= len(s.segs[s.i]) {
-			s.i++
-			s.off = 0
-		}
+		s.skipEmpty()
 		if s.i >= len(s.segs) {
 			break
 		}
@@ -50,7 +55,49 @@ func (s *segReader) Read(p []byte) (int, error) {
 	if n == 0 {
 		return 0, io.EOF
 	}
+	if s.withEOF {
+		s.skipEmpty()
+		if s.i >= len(s.segs) {
+			return n, io.EOF
+		}
+	}
 	return n, nil
+}
+
+func (s *segReader) skipEmpty() {
+	for s.i < len(s.segs) && s.off >= len(s.segs[s.i]) {
+		s.i++
+		s.off = 0
+	}
+}
+
+// Source kinds: how the edited file is handed to age.Decrypt. The stream
+// reader's end-of-file probe and short-read handling depend on it, so edits
+// that add or remove trailing bytes go through all of them.
+var (
+	plainKinds = []string{"segments", "filled", "bufio4096"}
+	eofKinds   = []string{"segments+eof", "filled+eof", "bufio4096+eof", "1byte+eof"}
+	allKinds   = append(append([]string{}, plainKinds...), eofKinds...)
+)
+
+func openSource(segs [][]byte, kind string) io.Reader {
+	switch kind {
+	case "segments":
+		return &segReader{segs: segs}
+	case "filled":
+		return &segReader{segs: segs, fill: true}
+	case "segments+eof":
+		return &segReader{segs: segs, withEOF: true}
+	case "filled+eof":
+		return &segReader{segs: segs, fill: true, withEOF: true}
+	case "bufio4096": // a caller-supplied *bufio.Reader is used by format.Parse as is
+		return bufio.NewReaderSize(&segReader{segs: segs, fill: true}, 4096)
+	case "bufio4096+eof":
+		return bufio.NewReaderSize(&segReader{segs: segs, fill: true, withEOF: true}, 4096)
+	case "1byte+eof":
+		return &segReader{segs: segs, fill: true, withEOF: true, max: 1}
+	}
+	panic("c02: unknown source kind " + kind)
 }
 
 func segLen(segs [][]byte) int {
@@ -122,11 +169,55 @@ func (o *outcome) errClass() string {
 
 var bufPool = sync.Pool{New: func() any { b := make([]byte, 1<<20); return &b }}
 
-// runDecrypt runs the real age.Decrypt over src and reads the plaintext reader
-// to its first error with the given buffer size, comparing every released byte
-// with want on the fly (nothing is accumulated). After the first error two
-// more Reads probe that the terminal state is sticky.
-func runDecrypt(src io.Reader, id age.Identity, bufSize int, want []byte) *outcome {
+// Consumption modes: how the plaintext reader is drained. io.Copy uses the
+// reader's own WriteTo if it has one, which is a different code path from Read.
+var consumeModes = []string{"read", "copy", "readall", "read+copy"}
+
+// checker compares released plaintext with want on the fly (nothing is
+// accumulated).
+type checker struct {
+	o    *outcome
+	want []byte
+}
+
+func (c *checker) take(b []byte) {
+	o := c.o
+	n := len(b)
+	if n > 0 && o.mismatch < 0 {
+		end := o.released + n
+		m := n
+		if end > len(c.want) {
+			m = len(c.want) - o.released
+			if m < 0 {
+				m = 0
+			}
+			o.mismatch = len(c.want) // released more than the original holds
+		}
+		if !bytes.Equal(b[:m], c.want[o.released:o.released+m]) {
+			for i := 0; i < m; i++ {
+				if b[i] != c.want[o.released+i] {
+					o.mismatch = o.released + i
+					break
+				}
+			}
+		}
+	}
+	o.released += n
+}
+
+// Write makes the checker the destination of io.Copy. It is deliberately not
+// an io.ReaderFrom, so io.Copy must use the source's WriteTo or plain Reads.
+func (c *checker) Write(b []byte) (int, error) {
+	c.take(b)
+	return len(b), nil
+}
+
+// runDecrypt runs the real age.Decrypt over src and drains the plaintext
+// reader to its first error in the given consumption mode ("read": Read loop
+// with a bufSize buffer; "copy": io.Copy; "readall": io.ReadAll; "read+copy":
+// one Read, then io.Copy). After the first error two more Reads probe that the
+// terminal state is sticky.
+func runDecrypt(src io.Reader, id age.Identity, mode string, bufSize int, want []byte) *outcome {
 	o := &outcome{mismatch: -1}
 	rd, err := age.Decrypt(src, id)
 	if err != nil {
@@ -143,55 +234,53 @@ func runDecrypt(src io.Reader, id age.Identity, bufSize int, want []byte) *outco
 	pb := bufPool.Get().(*[]byte)
 	defer bufPool.Put(pb)
 	buf := (*pb)[:bufSize]
-	take := func(n int) {
-		if n > 0 && o.mismatch < 0 {
-			end := o.released + n
-			if end <= len(want) {
-				if !bytes.Equal(buf[:n], want[o.released:end]) {
-					for i := 0; i < n; i++ {
-						if buf[i] != want[o.released+i] {
-							o.mismatch = o.released + i
-							break
-						}
-					}
-				}
-			} else {
-				m := len(want) - o.released
-				if m < 0 {
-					m = 0
-				}
-				o.mismatch = len(want)
-				for i := 0; i < m; i++ {
-					if buf[i] != want[o.released+i] {
-						o.mismatch = o.released + i
-						break
-					}
-				}
-			}
+	c := &checker{o: o, want: want}
+	clean := func(err error) error {
+		if err == nil {
+			return io.EOF // io.Copy and io.ReadAll report a clean end as nil
 		}
-		o.released += n
+		return err
 	}
-	zero := 0
-	for {
+	switch mode {
+	case "copy":
+		_, err := io.Copy(c, rd)
+		o.readErr = clean(err)
+	case "read+copy":
 		n, err := rd.Read(buf)
-		take(n)
+		c.take(buf[:n])
 		if err != nil {
 			o.readErr = err
 			break
 		}
-		if n == 0 {
-			zero++
-			if zero > 10000 {
-				o.readErr = errors.New("verif: reader made no progress in 10000 calls")
-				return o
+		_, err = io.Copy(c, rd)
+		o.readErr = clean(err)
+	case "readall":
+		b, err := io.ReadAll(rd)
+		c.take(b)
+		o.readErr = clean(err)
+	default:
+		zero := 0
+		for {
+			n, err := rd.Read(buf)
+			c.take(buf[:n])
+			if err != nil {
+				o.readErr = err
+				break
 			}
-		} else {
-			zero = 0
+			if n == 0 {
+				zero++
+				if zero > 10000 {
+					o.readErr = errors.New("verif: reader made no progress in 10000 calls")
+					return o
+				}
+			} else {
+				zero = 0
+			}
 		}
 	}
 	for i := 0; i < 2; i++ {
 		n, err := rd.Read(buf)
-		take(n)
+		c.take(buf[:n])
 		switch {
 		case n != 0:
 			o.afterErr = fmt.Sprintf("Read after the terminal error %q returned %d more bytes", o.readErr, n)
@@ -268,13 +357,96 @@ func (m *monitor) report() {
 type edited struct {
 	base  *base
 	class string // edit class (coverage table cell, part of the violation key)
-	edit  string // the edit, e.g. "flip@+17.3" or "seq=c0+c2+c1"
+	edit  string // the edit, e.g. "flip@h+17.bit3" or "seq=P0@0n+P1@1f"
 	segs  [][]byte
+	via   string // source kind the bytes are delivered through
+	long  bool   // sequence of maximal length in the thorough tier: one delivery only (cost)
+}
+
+// with fixes the delivery: via is "<source kind>,<consumption mode>".
+func (e *edited) with(via string) *edited {
+	c := *e
+	c.via = via
+	return &c
+}
+
+func (e *edited) delivery() (kind, mode string) {
+	i := strings.IndexByte(e.via, ',')
+	if i < 0 {
+		return e.via, "read"
+	}
+	return e.via[:i], e.via[i+1:]
+}
+
+// usable drops the one-byte-at-a-time source for files that are not small
+// (it then coincides with "filled+eof") and removes duplicates.
+func (e *edited) usable(kinds []string) []string {
+	small := segLen(e.segs) <= 2048
+	var out []string
+	seen := map[string]bool{}
+	for _, k := range kinds {
+		if k == "1byte+eof" && !small {
+			k = "filled+eof"
+		}
+		if !seen[k] {
+			seen[k] = true
+			out = append(out, k)
+		}
+	}
+	return out
 }
 
 func (e *edited) key(kind string) string {
-	return fmt.Sprintf("%s/%s/%s/%s", kind, e.class, e.base.name, e.edit)
+	return fmt.Sprintf("%s/%s/%s/%s@%s", kind, e.class, e.base.name, e.edit, e.via)
 }
+
+// Deliveries. Classes that add or remove trailing bytes (and the valid file
+// itself) go through every source kind x every consumption mode; every other
+// case through one combination chosen by a hash of the case.
+func (e *edited) kinds() []string {
+	switch e.class {
+	case "extend-small", "extend", "big-extend", "sequence-own+foreign", "unmodified", "trunc-at-boundary":
+		var out []string
+		for _, k := range e.usable(allKinds) {
+			for _, c := range consumeModes {
+				out = append(out, k+","+c)
+			}
+		}
+		return out
+	}
+	return e.hashedKind()
+}
+
+func (e *edited) hashedKind() []string {
+	h := hash32("kind/" + e.base.name + "/" + e.class + "/" + e.edit)
+	k := e.usable([]string{allKinds[h%uint32(len(allKinds))]})[0]
+	// Read loops twice as often as each of the other modes
+	c := []string{"read", "read", "copy", "readall", "read+copy"}[(h>>8)%5]
+	return []string{k + "," + c}
+}
+
+// kindPair is the delivery list of key-crafted sequences: quick tier = a Read
+// loop and an io.Copy, each through a hashed source kind; thorough tier = a
+// plain source with a Read loop, a data-with-EOF source with io.Copy, and a
+// hashed source with io.ReadAll / Read-then-Copy; the longest sequences of the
+// thorough tier get one hashed delivery (cost).
+func (e *edited) kindPair() []string {
+	h := hash32("pair/" + e.base.name + "/" + e.class + "/" + e.edit)
+	any1 := e.usable([]string{allKinds[h%uint32(len(allKinds))]})[0]
+	any2 := e.usable([]string{allKinds[(h>>8)%uint32(len(allKinds))]})[0]
+	switch {
+	case e.long:
+		return e.hashedKind()
+	case !pairDelivery:
+		return []string{any1 + ",read", any2 + ",copy"}
+	}
+	plain := plainKinds[(h>>16)%uint32(len(plainKinds))]
+	eof := e.usable([]string{eofKinds[(h>>20)%uint32(len(eofKinds))]})[0]
+	third := []string{"readall", "read+copy"}[(h>>24)%2]
+	return []string{plain + ",read", eof + ",copy", any1 + "," + third}
+}
+
+var pairDelivery bool // thorough tier
 
 func (e *edited) group(kind string) string {
 	return fmt.Sprintf("%s/%s/%s", kind, e.class, e.base.origin)
@@ -290,6 +462,7 @@ func (e *edited) replay(o *outcome) map[string]any {
 		"file_len":        len(e.base.file),
 		"edit_class":      e.class,
 		"edit":            e.edit,
+		"delivered_via":   e.via + " (source kind, consumption mode: see openSource and runDecrypt in harness/c02/oracle.go)",
 		"identity":        "X1 (keys.P(\"X1\"))",
 		"edited_file_len": segLen(e.segs),
 		"observed":        o.String(),
@@ -305,7 +478,11 @@ func (e *edited) replay(o *outcome) map[string]any {
 			h.Write(s)
 		}
 		rp["edited_file_sha256"] = hex.EncodeToString(h.Sum(nil))
-		rp["note"] = "the file key / nonce of files written by age.Encrypt are fresh per run; the edit is positional and reproduces on any run"
+		if e.base.fileKey == nil {
+			rp["note"] = "the file key and nonce of files written by age.Encrypt are fresh per run; the edit is positional and reproduces on any run"
+		} else {
+			rp["note"] = "the file is built by refage from fixed values derived from the seed (see refBase); key-crafted chunks are sealed under its stream key"
+		}
 	}
 	return rp
 }
@@ -324,9 +501,15 @@ func hash32(s string) uint32 {
 
 // decrypt runs the edited file through the real code.
 func (m *monitor) decrypt(e *edited, want []byte) *outcome {
-	h := hash32(e.base.name + "/" + e.class + "/" + e.edit)
-	src := &segReader{segs: e.segs, fill: h&0x100 != 0}
-	return runDecrypt(src, m.id, pickBuf(h>>9, len(e.base.pt) > 1<<20), want)
+	h := hash32(e.base.name + "/" + e.class + "/" + e.edit + "@" + e.via)
+	kind, mode := e.delivery()
+	return runDecrypt(openSource(e.segs, kind), m.id, mode, pickBuf(h>>9, len(e.base.pt) > 1<<20), want)
+}
+
+func (m *monitor) tabDelivery(e *edited) {
+	kind, mode := e.delivery()
+	m.r.Tab("source_kind", kind)
+	m.r.Tab("consumption_mode", mode)
 }
 
 // judgeA is oracle (a): the edited file differs from the valid file and was
@@ -338,17 +521,21 @@ func (m *monitor) judgeA(e *edited) {
 		m.r.Count("edits_equal_to_original_skipped", 1)
 		return
 	}
-	var o *outcome
-	m.r.Guard(e.key("panic"), func() { o = m.decrypt(e, e.base.pt) })
-	m.r.Eval(1)
-	if o == nil {
-		return
+	for _, via := range e.kinds() {
+		e := e.with(via)
+		var o *outcome
+		m.r.Guard(e.key("panic"), func() { o = m.decrypt(e, e.base.pt) })
+		m.r.Eval(1)
+		if o == nil {
+			continue
+		}
+		m.r.Distinct(e.base.name + "|" + e.class + "|" + e.edit + "@" + via)
+		m.r.Tab("edit_class", e.class)
+		m.tabDelivery(e)
+		m.r.Tab("result", o.errClass())
+		m.checkA(e, o)
+		m.r.SampleN("a:"+e.class, 1, map[string]any{"oracle": "a", "file": e.base.name, "class": e.class, "edit": e.edit, "via": via, "observed": o.String()})
 	}
-	m.r.Distinct(e.base.name + "|" + e.class + "|" + e.edit)
-	m.r.Tab("edit_class", e.class)
-	m.r.Tab("result", o.errClass())
-	m.checkA(e, o)
-	m.r.SampleN("a:"+e.class, 1, map[string]any{"oracle": "a", "file": e.base.name, "class": e.class, "edit": e.edit, "observed": o.String()})
 }
 
 func (m *monitor) checkA(e *edited, o *outcome) {
@@ -390,6 +577,7 @@ func (m *monitor) judgeB(e *edited, modelPT []byte, modelOK bool) *outcome {
 		return nil
 	}
 	m.r.Tab("edit_class", e.class)
+	m.tabDelivery(e)
 	m.r.Tab("result", o.errClass())
 	if modelOK {
 		m.r.Count("model_accepted", 1)
